@@ -882,7 +882,28 @@ def scen_double_failure(rng):
     return {'tree': tree, 'funcs': funcs, 'steps': steps}
 
 
-SCENARIOS = [scen_nested_failure, scen_swap, scen_stale_dir, scen_dups, scen_versions, scen_reads, scen_identity, scen_foreign_swap, scen_sibling_failure, scen_todir, scen_selfread, scen_file_becomes_parent, scen_olddir_becomes_target, scen_prefix_siblings, scen_overlay_order, scen_nested_reuse, scen_double_failure]
+def scen_funcname(rng):
+    """the same target (or the same subbuild arguments) under a different function name in consecutive builds: the name
+    is part of the identity of a record, whatever the arguments say"""
+    p = rng.choice(PATHS2)
+    use_bf = rng.random() < 0.6
+    a = rng.choice([0, [1, 2], {'k': 1}])
+    kw = rng.choice([{}, {'opt': 1}])
+    nested = rng.random() < 0.4
+
+    def call(callee):
+        return _bf(p, callee, arg=a, kw=kw, cmp_=rng.choice('MH')) if use_bf else _sb(callee, arg=a, kw=kw)
+    pick = [['if', ['arg', _e(0)], [call(2)], [call(3)]]]
+    funcs = [_fn('f0', ([['if', ['arg', _e(0)], [_sb(1, arg=0)], [_sb(1, arg=1)]]] if nested else pick) + _probe(rng, [p, ''], 1)),
+             _fn('f1', pick if nested else []),
+             _fn('f2', [['w', 'one']], {'const': _e('from f2')}),
+             _fn('f3', [['w', 'two']], {'const': _e('from f3')})]
+    funcs.append(_fn('rootfail', funcs[0]['stmts'] + [['raise', 99]]))
+    steps = [_build(arg=0), _build(arg=1), _build(arg=1), _build(arg=0)]
+    return {'tree': [], 'funcs': funcs, 'steps': steps}
+
+
+SCENARIOS = [scen_funcname, scen_nested_failure, scen_swap, scen_stale_dir, scen_dups, scen_versions, scen_reads, scen_identity, scen_foreign_swap, scen_sibling_failure, scen_todir, scen_selfread, scen_file_becomes_parent, scen_olddir_becomes_target, scen_prefix_siblings, scen_overlay_order, scen_nested_reuse, scen_double_failure]
 
 
 def gen_scenario_cases(seed, per_family, dirsize=4096, families=SCENARIOS):
